@@ -106,9 +106,13 @@ func loadFixedTargets() ([]*target, error) {
 	return ts, nil
 }
 
+// byte strings of the cases files are written packed (lib/Pack.v): Coq reads them several times faster
+// and long documents no longer overflow coqc's stack
+func init() { codecgen.Packed = true }
+
 func envHeader(ts []*target) string {
 	var sb strings.Builder
-	sb.WriteString("From Coq Require Import String List NArith ZArith.\nFrom J5V.lib Require Import Json.\nFrom J5V.model Require Import CodecTypes CodecEnc CodecEncCorr.\nImport ListNotations.\nLocal Open Scope N_scope.\n")
+	sb.WriteString("From Coq Require Import String List NArith ZArith.\nFrom Coq Require Import Uint63.\nFrom J5V.lib Require Import Json Pack.\nFrom J5V.model Require Import CodecTypes CodecEnc CodecEncCorr.\nImport ListNotations.\nLocal Open Scope N_scope.\n")
 	for _, t := range ts {
 		fmt.Fprintf(&sb, "Definition %s : env := %s.\n", t.Name, t.Env.Coq())
 	}
